@@ -750,9 +750,13 @@ class ProcProxy:
         stdout = self._pick_buf(self.stdout, sys.stdout, enc, err)
         if stdout is not self.stdout and stdout is not sys.stdout:
             owned_handles.append(stdout)
-        stderr = self._pick_buf(self.stderr, sys.stderr, enc, err)
-        if stderr is not self.stderr and stderr is not sys.stderr:
-            owned_handles.append(stderr)
+        if self.stderr == subprocess.STDOUT:
+            # ``e>o`` / ``2>&1``: stderr goes wherever stdout goes
+            stderr = stdout
+        else:
+            stderr = self._pick_buf(self.stderr, sys.stderr, enc, err)
+            if stderr is not self.stderr and stderr is not sys.stderr:
+                owned_handles.append(stderr)
         # run the actual function
         try:
             alias_env = {}
